@@ -45,7 +45,7 @@ man = {
          "kind_free_text": "independent executable statements of the properties, used only to search for failing inputs"},
     ],
     "checks": checks,
-    "notes": "See DESIGN.md. Fixed defect: C15 (commit ffeac80 in /repo, recorded in known_findings.txt).",
+    "notes": "See DESIGN.md. Known findings file: known_findings.txt. Fixed defects: C15 (commit ffeac80 in /repo: C API aborted on observations=0 in dev builds) and C04/C10 (commit 26f6ac5: generic never returned on finite input containing max_value()). One recorded, unrepaired finding: C12 at the edge of its domain (entries next to sqrt(MAX) with Ward/centroid/median); the C12 check prints KNOWN-FINDING for it and exits 0.",
     "not_applicable": na,
 }
 json.dump(man, open(os.path.join(os.path.dirname(os.path.dirname(os.path.abspath(__file__))), "MANIFEST.json"), "w"), indent=1)
